@@ -17,6 +17,7 @@ pub mod c15;
 pub mod c06;
 pub mod c08;
 pub mod c07;
+pub mod c07b;
 pub mod alloctrack;
 pub mod crashpool;
 
